@@ -383,6 +383,19 @@ def paginate(ctx, rr):
         if not (okw and okr):
             rr.fail(ctx.finding('R-PAGINATE', u, last, '%s: the resume path of the token is not handed to the walk or not reset after the first prefix: later prefixes are filtered '
                                 'by a path of another tree' % qual))
+        # between the token and the walk nobody rewrites the resume path: an empty path ("the prefix node itself is done") is not "no resume point"
+        extra = []
+        for a in P.own(u, (ast.Assign, ast.AugAssign)):
+            tg = a.targets if isinstance(a, ast.Assign) else [a.target]
+            if any(PATH in names_in_target(t) for t in tg) and a is not parse[0] and a is not last:
+                # the declaration `path = None` before the token is parsed is fine
+                if isinstance(a, ast.Assign) and isinstance(a.value, ast.Constant) and a.value.value is None and a.lineno < parse[0].lineno:
+                    continue
+                extra.append(a)
+        rr.ob(ctx.where(u, parse[0]), 'the resume path parsed from the token reaches the walk unchanged', ok=not extra)
+        for a in extra:
+            rr.fail(ctx.finding('R-PAGINATE', u, a, '%s rewrites the resume path of the token (`%s`): an empty path means "the prefix node itself was already returned", turning it into '
+                                '"no resume point" serves that page again (with page size 1, forever)' % (qual, ast.unparse(a)[:60])))
         # inner loop table
         inner = [f for f in ast.walk(of) if isinstance(f, ast.For) and f is not of and isinstance(f.iter, ast.Name)]
         if len(inner) != 1:
